@@ -144,6 +144,20 @@ Theorem C01_ediv_spec : forall a b, (b <> 0)%Z ->
 Proof. exact euclid_spec. Qed.
 Print Assumptions C01_ediv_spec.
 
+(* sets and maps are outside the proved simulation, but their LOOKUPS are proved for every comparable key type
+   (composite keys included), without any sortedness assumption: MEM on a set and GET on a map — SetType.contains,
+   MapType.get with their class checks — return what the reference rules prescribe, with the right class *)
+Theorem C01_mem_get_agree : forall (e : env) x t l vt lm,
+  typed x t -> comparable t = true -> Forall (fun y => typed y t) l -> Forall (entry_typed t vt) lm ->
+  (exists fn, py_simple e I_MEM = Some (2, fn) /\
+     fn [x; PSet t l] = POk [PBool (py_set_contains x l)] /\
+     ref_simple e I_MEM (erase x :: VSet (map erase l) :: nil) = Done [VBool (py_set_contains x l)]) /\
+  (exists fn, py_simple e I_GET = Some (2, fn) /\
+     exists r, fn [x; PMap t vt lm] = POk [r] /\ typed r (TOption vt) /\
+     ref_simple e I_GET (erase x :: VMap (map erase lm) :: nil) = Done [erase r]).
+Proof. exact mem_get_agree. Qed.
+Print Assumptions C01_mem_get_agree.
+
 (* Without the restriction on MAP the simulation is false for pytezos: MAP over an empty list keeps the class of
    the source list and a following CONS fails although the reference succeeds (known finding empty-map-retype). *)
 Theorem C01_simulation_refuted : exists e fuel code st R inputs,
